@@ -6,6 +6,12 @@ Families:
          {0,1}-valued dicts / repeated operands / model objects) x lam in {1, 2, 1/3}
   rand   random single calls with mixed operand kinds and more lam values
   seq    several logical constraints added to one PCBO
+  seq-obj  histories whose operands are model OBJECTS (boolean_var, PCBO/PUBO/QUBO objects and products, built sat
+         expressions) created once by the harness and re-used as operands of later calls; every operand object is
+         snapshotted before and after every call (inputs must not be modified)
+  seq-cmp  histories interleaving logical methods with comparison constraints add_constraint_{eq,ne,lt,le,gt,ge}_zero
+         (trivial ones included: always / never satisfiable by their bounds); is_solution_valid after every step must be
+         "every logical constraint so far holds and every comparison so far holds"
   tmpl   fixed templates that force the `_special_constraints_eq_zero` shortcut and the squared branch
 
 Every call is run on the real `qubovert.PCBO` and on the Lean model (`op: logic`); compared exactly after every
@@ -16,12 +22,13 @@ gate evaluated with Python's `all` / `any` / `sum % 2` on the operand values.
 import itertools, warnings
 from fractions import Fraction
 from . import common
-from .common import Labels, fs, exc_name, canon_terms
+from .common import Labels, fs, exc_name, canon_terms, snapshot
 
 CEXT = "plain"
 RULE = ("calls add_constraint_[eq_]G(*operands, lam=lam) on a PCBO (fresh, or carrying earlier logical constraints); "
         "operands are labels (4 label realisations), nested sat expressions (depth<=2), {0,1}-valued plain dicts, "
         "PUBO/PCBO/QUBO objects, repeated operands; arities 0..5; lam in {1,2,1/3} (enum) plus {3,5/2,1/8,0} (random); "
+        "histories also re-use operand objects across calls and interleave comparison constraints; "
         "a case is non-trivial when at least one step succeeds with >=2 operands; distinct = distinct case JSON")
 ASSUMPTIONS = ["operands given as dicts / model objects take values in {0,1} on boolean assignments (the generator "
                "builds them so and the oracle re-checks it)",
@@ -96,8 +103,10 @@ def make_ops(rng, kind, nops, pool):
     raise ValueError(kind)
 
 def labels_of(o, acc):
-    if o["t"] == "lbl":
+    if o["t"] in ("lbl", "bvar"):
         acc.add(o["i"])
+    elif o["t"] == "ref":
+        pass                        # the pool entry is counted by case_n
     elif o["t"] in ("raw", "mdl"):
         for k, _ in o["p"]:
             acc.update(k)
@@ -106,12 +115,29 @@ def labels_of(o, acc):
             labels_of(a, acc)
     return acc
 
-def case_n(seq):
+def case_n(seq, pool=()):
     acc = set()
+    for o in pool:
+        labels_of(o, acc)
     for st in seq:
+        if st.get("cmp"):
+            for k, _ in st["P"]:
+                acc.update(k)
+            continue
         for o in st["ops"]:
             labels_of(o, acc)
     return (max(acc) + 1) if acc else 0
+
+def resolve(o, pool):
+    """the operand as the Lean driver sees it: pool references replaced by their (immutable) description,
+    boolean_var(i) by the PCBO {(i,): 1}"""
+    if o["t"] == "ref":
+        return resolve(pool[o["i"]], pool)
+    if o["t"] == "bvar":
+        return {"t": "mdl", "k": "PCBO", "p": [[[o["i"]], "1"]]}
+    if o["t"] == "gate":
+        return dict(o, args=[resolve(a, pool) for a in o["args"]])
+    return o
 
 def enum_cases(rng):
     out = []
@@ -157,6 +183,130 @@ def rand_case(rng, steps=1):
     return {"family": "rand" if steps == 1 else "seq", "kind": "mixed", "labels": rng.choice(Labels.STYLES),
             "seq": seq, "n": case_n(seq)}
 
+def gen_pool(rng, labels):
+    pool = []
+    for _ in range(rng.randint(1, 3)):
+        r = rng.random()
+        if r < 0.5 or not labels:
+            o = {"t": "bvar", "i": rng.choice(labels)}
+        elif r < 0.75:
+            sub = rng.sample(labels, min(len(labels), 3))
+            o = {"t": "mdl", "k": rng.choice(["PCBO", "PUBO", "PUBO", "QUBO"]), "p": rng.choice(dict_templates(sub)[:5])}
+        else:
+            g = rng.choice(["AND", "OR", "XOR", "NAND", "NOT"])
+            def arg():
+                ok = [i for i, q in enumerate(pool) if not has_qubo(resolve(q, pool))]   # no degree overflow here
+                if ok and rng.random() < 0.4:
+                    return {"t": "ref", "i": rng.choice(ok)}
+                return rng.choice([lbl(rng.choice(labels)), {"t": "bvar", "i": rng.choice(labels)}])
+            o = {"t": "gate", "g": g, "args": [arg() for _ in range(1 if g == "NOT" else rng.choice([2, 2, 3]))]}
+        pool.append(o)
+    return pool
+
+def obj_step(rng, labels, npool):
+    eq = rng.random() < 0.4
+    g = rng.choice(["AND", "NAND", "AND", "NAND", "OR", "XOR", "NOR", "XNOR", "NOT", "BUFFER"])
+    if g in ("NOT", "BUFFER"):
+        nops = 2 if eq else 1
+    else:
+        nops = rng.choice([2, 2, 3]) + (1 if eq else 0)
+    def operand():
+        r = rng.random()
+        if r < 0.6:
+            return {"t": "ref", "i": rng.randrange(npool)}
+        if r < 0.85:
+            return lbl(rng.choice(labels))
+        return gen_operand(rng, labels, 1, ["gate", "lbl"])
+    return {"eq": eq, "g": g, "ops": [operand() for _ in range(nops)], "lam": rng.choice(["1", "2", "1/3", "3"])}
+
+def obj_case(rng):
+    labels = list(range(rng.choice([2, 3, 3, 4])))
+    pool = gen_pool(rng, labels)
+    seq = [obj_step(rng, labels, len(pool)) for _ in range(rng.choice([2, 3, 3, 4]))]
+    return {"family": "seq-obj", "kind": "objects", "labels": rng.choice(Labels.STYLES), "pool": pool, "seq": seq,
+            "n": case_n(seq, pool)}
+
+RELS = ["eq", "ne", "lt", "le", "gt", "ge"]
+
+def cmp_step(rng, labels):
+    """add_constraint_<rel>_zero(P): integer coefficients; about half of them trivial by their bounds"""
+    def mono():
+        return sorted(rng.sample(labels, rng.randint(1, min(2, len(labels)))))
+    r = rng.random()
+    if r < 0.2:      # all coefficients negative (<= 0, < 1 always; >= 1 never ...)
+        P = [[mono(), str(-rng.randint(1, 2))] for _ in range(rng.randint(1, 3))]
+    elif r < 0.4:    # all positive
+        P = [[mono(), str(rng.randint(1, 2))] for _ in range(rng.randint(1, 3))]
+    elif r < 0.55:   # shifted away from zero
+        P = [[mono(), str(rng.choice([-1, 1]))] for _ in range(rng.randint(1, 2))] + [[[], str(rng.choice([-3, 3, 2, -2]))]]
+    else:
+        P = [[mono(), str(rng.choice([-2, -1, 1, 2]))] for _ in range(rng.randint(1, 3))]
+        if rng.random() < 0.6:
+            P.append([[], str(rng.choice([-2, -1, 1]))])
+    d = {}
+    for k, v in P:                     # a dict literal cannot hold a key twice
+        d[tuple(k)] = v
+    P = [[list(k), v] for k, v in d.items()]
+    return {"cmp": True, "rel": rng.choice(RELS), "P": P, "lam": rng.choice(["1", "2", "1/3"]),
+            "lt": rng.random() < 0.5, "lo": None, "hi": None}
+
+def cmp_case(rng):
+    labels = list(range(rng.choice([2, 3, 3, 4])))
+    seq = []
+    for _ in range(rng.choice([2, 3, 4, 5])):
+        if rng.random() < 0.5:
+            seq.append(cmp_step(rng, labels))
+        else:
+            st = rand_step(rng, labels)
+            st["ops"] = [o for o in st["ops"]]
+            seq.append(st)
+    if not any(st.get("cmp") for st in seq):
+        seq.append(cmp_step(rng, labels))
+    if all(st.get("cmp") for st in seq):
+        seq.insert(0, rand_step(rng, labels))
+    return {"family": "seq-cmp", "kind": "cmp", "labels": rng.choice(Labels.STYLES), "seq": seq, "n": case_n(seq)}
+
+def hist_tmpl_cases():
+    """fixed histories: an operand object used by AND/NAND and again afterwards; a logical constraint followed by a
+    trivial comparison of every relation"""
+    out = []
+    x, y, z = {"t": "ref", "i": 0}, {"t": "ref", "i": 1}, {"t": "ref", "i": 2}
+    pool = [{"t": "bvar", "i": 0}, {"t": "bvar", "i": 1}, {"t": "bvar", "i": 2}]
+    H = [
+        [(False, "NAND", [x, y]), (True, "NOT", [x, z])],
+        [(False, "AND", [x, y]), (False, "OR", [x, z])],
+        [(False, "AND", [x, y, z]), (False, "BUFFER", [x])],
+        [(True, "AND", [z, x, y]), (False, "NAND", [x, y]), (True, "XOR", [x, y, z])],
+        [(False, "NAND", [y, x]), (True, "OR", [z, y, x]), (False, "NOT", [y])],
+    ]
+    for i, h in enumerate(H):
+        for lam in ("1", "2"):
+            seq = [{"eq": e, "g": g, "ops": ops, "lam": lam} for e, g, ops in h]
+            out.append({"family": "seq-obj", "kind": "objects", "labels": Labels.STYLES[i % 4], "pool": pool, "seq": seq,
+                        "n": case_n(seq, pool)})
+    pool2 = [{"t": "mdl", "k": "PUBO", "p": [[[1, 0], "1"]]}, {"t": "bvar", "i": 2},
+             {"t": "gate", "g": "OR", "args": [{"t": "ref", "i": 1}, lbl(0)]}]
+    for i, h in enumerate([[(False, "AND", [x, y]), (True, "BUFFER", [y, x])],
+                           [(False, "NAND", [z, x]), (False, "OR", [z, y])],
+                           [(False, "AND", [y, z]), (False, "XOR", [y, x])]]):
+        seq = [{"eq": e, "g": g, "ops": ops, "lam": "2"} for e, g, ops in h]
+        out.append({"family": "seq-obj", "kind": "objects", "labels": Labels.STYLES[i % 4], "pool": pool2, "seq": seq,
+                    "n": case_n(seq, pool2)})
+    trivial = [("le", [[[2], "-1"]]), ("ge", [[[0], "1"], [[1], "1"], [[2], "1"]]), ("lt", [[[2], "-1"], [[], "-1"]]),
+               ("gt", [[[0], "1"], [[], "1"]]), ("le", [[[2], "1"], [[], "1"]]), ("ge", [[[2], "-1"], [[], "-2"]]),
+               ("ne", [[[2], "1"], [[], "2"]]), ("eq", [[[2], "1"], [[], "1"]]), ("le", [[[0], "1"], [[1], "-1"]]),
+               ("ge", [[[0], "1"], [[1], "1"], [[], "-1"]])]
+    logic = [(False, "OR", [lbl(0), lbl(1)]), (True, "AND", [lbl(2), lbl(0), lbl(1)]), (False, "NOT", [lbl(1)]),
+             (True, "XOR", [lbl(0), lbl(1), lbl(2)])]
+    for i, (rel, P) in enumerate(trivial):
+        for j, (e, g, ops) in enumerate(logic):
+            seq = [{"eq": e, "g": g, "ops": ops, "lam": "2"},
+                   {"cmp": True, "rel": rel, "P": P, "lam": "2", "lt": bool((i + j) % 2), "lo": None, "hi": None},
+                   {"eq": False, "g": "BUFFER", "ops": [lbl(0)], "lam": "1"}]
+            out.append({"family": "seq-cmp", "kind": "cmp", "labels": Labels.STYLES[(i + j) % 4], "seq": seq,
+                        "n": case_n(seq)})
+    return out
+
 def tmpl_cases():
     """the shortcut `z == x*y` of `_special_constraints_eq_zero` reached through the logic methods, and the
     squared-difference branch with non-trivial operands"""
@@ -187,11 +337,15 @@ def num_of(s):
     f = Fraction(s)
     return int(f) if f.denominator == 1 else f
 
-def build_operand(o, L):
+def build_operand(o, L, objs=None):
     import qubovert as qv
     from qubovert import sat
     if o["t"] == "lbl":
         return L.lab(o["i"])
+    if o["t"] == "ref":
+        return objs[o["i"]]              # the SAME Python object every time
+    if o["t"] == "bvar":
+        return qv.boolean_var(L.lab(o["i"]))
     if o["t"] == "raw":
         d = {}
         for k, v in o["p"]:
@@ -200,59 +354,88 @@ def build_operand(o, L):
         return d
     if o["t"] == "mdl":
         return getattr(qv, o["k"])([(L.key(k), num_of(v)) for k, v in o["p"]])
-    return getattr(sat, o["g"])(*[build_operand(a, L) for a in o["args"]])
+    return getattr(sat, o["g"])(*[build_operand(a, L, objs) for a in o["args"]])
 
 def assignments(n):
     for b in range(2 ** n):
         yield b, [(b >> i) & 1 for i in range(n)]
 
 def state_of(H, L, n, warns):
-    cons = []
-    for rel, lst in H._constraints.items():
-        for P in lst:
-            cons.append([rel, canon_terms(P, L)])
-    # all recorded constraints of the logic methods are 'eq'; the dict keeps per-relation append order
+    cons = {rel: [canon_terms(P, L) for P in lst] for rel, lst in H._constraints.items()}
     valid = []
     for _, bits in assignments(n):
         sol = {L.lab(i): v for i, v in enumerate(bits)}
         valid.append(bool(H.is_solution_valid(sol)))
     return {"terms": canon_terms(H, L), "anc": H.num_ancillas, "cons": cons, "warns": list(warns), "valid": valid}
 
+def full_state(H):
+    return (dict(H), H.num_ancillas, {k: [dict(p) for p in v] for k, v in H._constraints.items()})
+
 def run_impl(case):
-    """returns (canonical per-step outputs, per-step term functions for the oracle, notes)"""
+    """returns (canonical per-step outputs, per-step facts for the oracle)"""
     import qubovert as qv
     L = Labels(case["labels"])
     n = case["n"]
     H = qv.PCBO()
+    objs = []
+    for o in case.get("pool", []):
+        try:
+            objs.append(build_operand(o, L, objs))   # created once; later calls receive these very objects
+        except Exception as e:
+            raise common.Infra("GENERATOR: pool object %r does not build: %r" % (o, e))
+    # exactness: `/ 2` in the library turns ints into floats; with a non-dyadic weight anywhere in the history the
+    # comparison steps are driven with Fractions throughout (float + Fraction would round; DESIGN.md §3.2)
+    frac = any(Fraction(st["lam"]).denominator & (Fraction(st["lam"]).denominator - 1) for st in case["seq"])
+    cnum = (lambda v: Fraction(v)) if frac else num_of
     outs, funcs, warns = [], [], []
     for st in case["seq"]:
-        before_terms = dict(H)
-        before_state = (dict(H), H.num_ancillas, {k: [dict(p) for p in v] for k, v in H._constraints.items()})
-        name = "add_constraint_" + ("eq_" if st["eq"] else "") + st["g"]
+        before_terms, anc_before = dict(H), H.num_ancillas
+        before_state = full_state(H)
+        pool_snaps = [snapshot(o) for o in objs]
+        ops, op_snaps = [], []
         try:
-            ops = [build_operand(o, L) for o in st["ops"]]
+            if st.get("cmp"):
+                d = {L.key(k): cnum(v) for k, v in st["P"]}
+                kw = dict(lam=cnum(st["lam"]))
+                if st["rel"] != "eq":
+                    kw["log_trick"] = st["lt"]
+                if st["lo"] is not None or st["hi"] is not None:
+                    kw["bounds"] = (None if st["lo"] is None else cnum(st["lo"]),
+                                    None if st["hi"] is None else cnum(st["hi"]))
+                ops, name, args = [d], "add_constraint_%s_zero" % st["rel"], (d,)
+            else:
+                ops = [build_operand(o, L, objs) for o in st["ops"]]
+                name, args, kw = "add_constraint_" + ("eq_" if st["eq"] else "") + st["g"], tuple(ops), \
+                    dict(lam=num_of(st["lam"]))
+            op_snaps = [snapshot(o) for o in ops]
             with warnings.catch_warnings(record=True) as w:
                 warnings.simplefilter("always")
-                r = getattr(H, name)(*ops, lam=num_of(st["lam"]))
+                r = getattr(H, name)(*args, **kw)
             for x in w:
                 m = str(x.message)
                 warns.append("always" if "always" in m else "unsat" if "cannot" in m else m)
             note = None if r is H else "method did not return self"
+            err = None
         except Exception as e:
-            after_state = (dict(H), H.num_ancillas, {k: [dict(p) for p in v] for k, v in H._constraints.items()})
-            outs.append({"err": exc_name(e)})
-            funcs.append({"err": exc_name(e), "unchanged": after_state == before_state})
+            err = exc_name(e)
+        modified = ["pool[%d]" % i for i, (o, sn) in enumerate(zip(objs, pool_snaps)) if snapshot(o) != sn]
+        modified += ["operand %d" % i for i, (o, sn) in enumerate(zip(ops, op_snaps))
+                     if snapshot(o) != sn and not any(o is p for p in objs)]
+        if err:
+            outs.append({"err": err})
+            funcs.append({"err": err, "unchanged": full_state(H) == before_state, "modified": modified})
             continue
         outs.append(state_of(H, L, n, warns))
-        vals_before, vals_after = [], []
-        Hb = qv.PUBO(before_terms)
-        for _, bits in assignments(n):
-            sol = {L.lab(i): v for i, v in enumerate(bits)}
-            vals_before.append(Fraction(Hb.value(sol)))
-            vals_after.append(Fraction(H.value(sol)))
-        funcs.append({"F": [a - b for a, b in zip(vals_after, vals_before)],
-                      "vars": [str(v) for v in H.variables], "valid": outs[-1]["valid"], "anc": H.num_ancillas,
-                      "note": note})
+        if st.get("cmp"):
+            funcs.append({"cmp": True, "valid": outs[-1]["valid"], "note": note, "modified": modified})
+            continue
+        D = qv.PUBO(dict(H)) - qv.PUBO(before_terms)          # the added terms
+        dvars = sorted({str(v) for k in D for v in k})      # labels occurring in the added terms
+        F = None
+        if not any(v.startswith("__a") for v in dvars):
+            F = [Fraction(D.value({L.lab(i): v for i, v in enumerate(bits)})) for _, bits in assignments(n)]
+        funcs.append({"F": F, "dvars": dvars, "valid": outs[-1]["valid"], "anc_delta": H.num_ancillas - anc_before,
+                      "note": note, "modified": modified})
     return outs, funcs
 
 # ------------------------------------------------------------------ direct oracle (from the property text only)
@@ -308,56 +491,83 @@ def has_qubo(o):
         return any(has_qubo(a) for a in o["args"])
     return False
 
+def holds(rel, v):
+    return {"eq": v == 0, "ne": v != 0, "lt": v < 0, "le": v <= 0, "gt": v > 0, "ge": v >= 0}[rel]
+
+def step_name(st):
+    if st.get("cmp"):
+        return "add_constraint_%s_zero(%s)" % (st["rel"], st["P"])
+    return "%s%s" % ("eq_" if st["eq"] else "", st["g"])
+
 def oracle(case, funcs):
     n = case["n"]
+    pool = case.get("pool", [])
     sat_so_far = [True] * (2 ** n)
     for si, (st, f) in enumerate(zip(case["seq"], funcs)):
+        if f.get("modified"):
+            return "step %d (%s) modified its input object(s) %s — operands must not be modified" % (
+                si, step_name(st), ", ".join(f["modified"]))
+        if st.get("cmp"):
+            if "err" in f:
+                return "step %d: %s raised %s" % (si, step_name(st), f["err"])
+            if f["note"]:
+                return "step %d: %s" % (si, f["note"])
+            for b, bits in assignments(n):
+                sat_so_far[b] = sat_so_far[b] and holds(st["rel"], poly_value(st["P"], bits))
+                if f["valid"][b] != sat_so_far[b]:
+                    return ("step %d (%s): is_solution_valid(%s) = %s but the constraints added so far (logical and "
+                            "comparison) say %s" % (si, step_name(st), bits, f["valid"][b], sat_so_far[b]))
+            continue
+        ops = [resolve(o, pool) for o in st["ops"]]
         want_err = expected_error(st)
         if "err" in f:
             if not f["unchanged"]:
                 return "step %d raised %s and left the PCBO modified" % (si, f["err"])
             if want_err == f["err"]:
                 continue
-            if f["err"] == "KeyError" and any(has_qubo(o) for o in st["ops"]):
+            if f["err"] == "KeyError" and any(has_qubo(o) for o in ops):
                 continue        # degree overflow of a QUBO-typed operand (C05/C07 territory)
             return "step %d: unexpected %s (expected %s)" % (si, f["err"], want_err)
         if want_err:
             return "step %d: expected %s for %d operands, call succeeded" % (si, want_err, len(st["ops"]))
         if f["note"]:
             return "step %d: %s" % (si, f["note"])
-        if f["anc"] != 0 or any(v.startswith("__a") for v in f["vars"]):
-            return "step %d introduced an ancilla (num_ancillas=%s, variables=%s)" % (si, f["anc"], f["vars"])
+        if f["anc_delta"] != 0 or any(v.startswith("__a") for v in f["dvars"]):
+            return "step %d (%s) introduced an ancilla (num_ancillas +%s, variables of the added terms %s)" % (
+                si, step_name(st), f["anc_delta"], f["dvars"])
         lam = Fraction(st["lam"])
         for b, bits in assignments(n):
             try:
                 if st["eq"]:
-                    a = truth(st["ops"][0], bits)
-                    g = gate_truth(st["g"], [truth(o, bits) for o in st["ops"][1:]])
+                    a = truth(ops[0], bits)
+                    g = gate_truth(st["g"], [truth(o, bits) for o in ops[1:]])
                     ok = (a == g)
                 else:
-                    ok = gate_truth(st["g"], [truth(o, bits) for o in st["ops"]])
+                    ok = gate_truth(st["g"], [truth(o, bits) for o in ops])
             except NotBoolean as e:
                 return "GENERATOR: operand not {0,1}-valued: %r" % (e.args[0],)
             F = f["F"][b]
             if ok and F != 0:
-                return "step %d (%s%s, lam=%s): assignment %s satisfies the gate but the added terms give %s" % (
-                    si, "eq_" if st["eq"] else "", st["g"], st["lam"], bits, F)
+                return "step %d (%s, lam=%s): assignment %s satisfies the gate but the added terms give %s" % (
+                    si, step_name(st), st["lam"], bits, F)
             if not ok and F < lam:
-                return "step %d (%s%s, lam=%s): assignment %s violates the gate but the added terms give %s < lam" % (
-                    si, "eq_" if st["eq"] else "", st["g"], st["lam"], bits, F)
+                return "step %d (%s, lam=%s): assignment %s violates the gate but the added terms give %s < lam" % (
+                    si, step_name(st), st["lam"], bits, F)
             sat_so_far[b] = sat_so_far[b] and ok
             if f["valid"][b] != sat_so_far[b]:
-                return "step %d (%s%s): is_solution_valid(%s) = %s but the gates say %s" % (
-                    si, "eq_" if st["eq"] else "", st["g"], bits, f["valid"][b], sat_so_far[b])
+                return "step %d (%s): is_solution_valid(%s) = %s but the constraints added so far say %s" % (
+                    si, step_name(st), bits, f["valid"][b], sat_so_far[b])
     return None
 
 # ------------------------------------------------------------------ driver of the check
 
 def model_line(case):
-    return {"op": "logic", "n": case["n"], "seq": case["seq"]}
+    pool = case.get("pool", [])
+    seq = [st if st.get("cmp") else dict(st, ops=[resolve(o, pool) for o in st["ops"]]) for st in case["seq"]]
+    return {"op": "logic", "n": case["n"], "seq": seq}
 
 def nontrivial(case, outs):
-    return any("err" not in o and len(st["ops"]) >= 2 for st, o in zip(case["seq"], outs))
+    return any("err" not in o and not st.get("cmp") and len(st["ops"]) >= 2 for st, o in zip(case["seq"], outs))
 
 def process(ctx, cases):
     models = common.run_driver([model_line(c) for c in cases])
@@ -375,8 +585,16 @@ def process(ctx, cases):
             for t in tags[seen:]:
                 ctx.count("branch:" + t)
             seen = max(seen, len(tags))
+            if "cons" in o:
+                cons = {}
+                for r, p in o["cons"]:
+                    cons.setdefault(r, []).append(p)
+                o["cons"] = cons
             mm.append(o)
         for st, o in zip(c["seq"], outs):
+            if st.get("cmp"):
+                ctx.count("%s:cmp:%s" % (c["family"], st["rel"]))
+                continue
             ctx.count("%s:%s%s:%s" % (c["family"], "eq_" if st["eq"] else "", st["g"],
                                       ("err:" + o["err"]) if "err" in o else "ok"))
             ctx.count("arity:%d" % len(st["ops"]))
@@ -391,9 +609,11 @@ def process(ctx, cases):
 
 def check(ctx):
     rng = ctx.rng
-    cases = tmpl_cases() + enum_cases(rng)
+    cases = tmpl_cases() + hist_tmpl_cases() + enum_cases(rng)
     cases += [rand_case(rng) for _ in range(ctx.scale(1500, 20000))]
     cases += [rand_case(rng, rng.choice([2, 3, 4])) for _ in range(ctx.scale(300, 4000))]
+    cases += [obj_case(rng) for _ in range(ctx.scale(300, 4000))]
+    cases += [cmp_case(rng) for _ in range(ctx.scale(300, 4000))]
     process(ctx, cases)
     ctx.exhaustive = False
     if ctx.diffs and not ctx.violations:
@@ -406,11 +626,16 @@ def search(ctx):
     for d in ctx.diffs[:50]:
         c = d["case"]
         for st in c["seq"]:
+            if st.get("cmp"):
+                continue
+            c = dict(c, pool=[])
+            st = dict(st, ops=[resolve(o, d["case"].get("pool", [])) for o in st["ops"]])
             for nops in range(0, 7):
                 seq = [dict(st, ops=[lbl(i) for i in range(nops)])]
                 extra.append(dict(c, family="search", seq=seq, n=nops))
             extra.append(dict(c, family="search", seq=[st], n=case_n([st])))
     extra += [rand_case(ctx.rng) for _ in range(3000)]
+    extra += [obj_case(ctx.rng) for _ in range(500)] + [cmp_case(ctx.rng) for _ in range(500)]
     for c in extra:
         _, funcs = run_impl(c)
         bad = oracle(c, funcs)
